@@ -76,7 +76,7 @@ class Margin:
 class C03(core.Check):
     pid = 'C03'
     unproved = [
-        'refinement to the reference margin account is stated for one symbol per world; several symbols sharing one wallet are covered by rejection_iff / submit_cancel_restores_margin and by correspondence + oracle',
+        'the refinement to the reference margin account holds for every symbol of a world with any number of symbols (fill_refines_any_symbol, fill_leaves_other_symbols); what is not a theorem is the available-margin sum over several symbols after a fill (rejection_iff / submit_cancel_restores_margin state it per operation; correspondence + oracle run 1-3 symbols)',
     ]
     gen_keys = ['jesse/helpers.py:estimate_average_price', 'jesse/helpers.py:estimate_PNL']
     rule = ('correspondence: seeded LEGAL operation sequences (1-3 symbols sharing one wallet, leverage 1..125, fee on a '
